@@ -13,6 +13,8 @@ Core Lean only.
 import ChibiVerif.Model.Layout
 import ChibiVerif.Spec.LayoutSpec
 
+set_option linter.unusedSimpArgs false
+
 namespace ChibiVerif.Spec.Layout
 open ChibiVerif.Layout
 
@@ -507,6 +509,9 @@ mutual
        | none => true
        | some w => isBitfieldBase ty && d.alignas == 0 && decide (0 ≤ w) && decide (w ≤ 8 * (specSizeAlign ty).1) &&
                    (!d.named || decide (0 < w)))
+    | .consT d aty ty rest =>
+      -- `_Alignas(type-name)`; never on a bit-field (C11 6.7.5p2)
+      aty.ok r && ty.ok r && rest.ok r && d.bitWidth.isNone
 end
 
 theorem prim_eq (t : TyName) : primSize t = ((psabiScalar t).1 : Nat) ∧ primAlign t = ((psabiScalar t).2 : Nat) ∧
@@ -615,15 +620,15 @@ mutual
           simp only [ne_eq, h0, this, not_false_eq_true, if_true]
           omega
       constructor
-      · simp only [Members.toMems, ih1.1, ih2.1, bind, Except.bind, pure, Except.pure, hsm, List.map_cons, SMem.toMem,
-          Except.ok.injEq, List.cons.injEq, and_true, Mem.mk.injEq, hal, true_and]
+      · simp only [Members.toMems, memberAlign, alignasOfConst, ih1.1, ih2.1, bind, Except.bind, pure, Except.pure, hsm,
+          List.map_cons, SMem.toMem, Except.ok.injEq, List.cons.injEq, and_true, Mem.mk.injEq, hal, true_and]
         cases hb : d.bitWidth with
-        | none => simp
+        | none => by_cases h0 : d.alignas = 0 <;> simp [h0]
         | some w =>
           rw [hb] at hbf
           simp only [Bool.and_eq_true, decide_eq_true_eq] at hbf
           have : ((w.toNat : Nat) : Int) = w := Int.toNat_of_nonneg hbf.1.1.2
-          simp [this]
+          by_cases h0 : d.alignas = 0 <;> simp [this, h0]
       · intro m hm
         rw [hsm] at hm
         rcases List.mem_cons.mp hm with rfl | hm'
@@ -641,6 +646,28 @@ mutual
             rcases hnm with hnm | hnm
             · rw [hn] at hnm; cases hnm
             · omega
+        · exact ih2.2 m hm'
+    | .consT d aty ty rest, h => by
+      simp only [Members.ok, Bool.and_eq_true, Option.isNone_iff_eq_none] at h
+      obtain ⟨⟨⟨haty, hty⟩, hrest⟩, hbw⟩ := h
+      have iha := ty_eq aty haty
+      have ih1 := ty_eq ty hty
+      have ih2 := ms_eq rest hrest
+      have hsm : specMembers (.consT d aty ty rest) =
+          { size := (specSizeAlign ty).1, tyAlign := (specSizeAlign ty).2, alignas := (specSizeAlign aty).2,
+            bitWidth := d.bitWidth.map Int.toNat, named := d.named } :: specMembers rest := by
+        simp [specMembers]
+      have hne : (specSizeAlign aty).2 ≠ 0 := by have := iha.2; omega
+      have hne' : ¬ (((specSizeAlign aty).2 : Nat) : Int) = 0 := by omega
+      constructor
+      · simp only [Members.toMems, memberAlign, alignasOfType, iha.1, ih1.1, ih2.1, bind, Except.bind, pure, Except.pure,
+          hsm, List.map_cons, SMem.toMem, Except.ok.injEq, List.cons.injEq, and_true, Mem.mk.injEq, true_and, hbw,
+          Option.map_none, ne_eq, hne, hne', not_false_eq_true, if_true]
+      · intro m hm
+        rw [hsm] at hm
+        rcases List.mem_cons.mp hm with rfl | hm'
+        · refine ⟨ih1.2, ?_⟩
+          simp [hbw]
         · exact ih2.2 m hm'
 end
 
